@@ -426,6 +426,14 @@ func run(env *simrt.Env, sci interface{}) {
 		// more mappings than ports in the dynamic range: address-and-port dependent mapping
 		// towards 16385 distinct remote ports
 		src := internals[0]
+		// one flow of the same socket goes to a bound remote: it is the oldest entry of the tables and
+		// is observed again in the later phases
+		var r2 *sockT
+		if len(remotes) >= 2 {
+			r2 = remotes[len(remotes)-1]
+			pl, _ := mkPayload()
+			_, _ = src.conn.WriteTo(pl, r2.addr)
+		}
 		for p := 0; p < 16385; p++ {
 			pl, _ := mkPayload()
 			if _, err := src.conn.WriteTo(pl, &net.UDPAddr{IP: net.ParseIP("1.2.3.100"), Port: 20000 + p}); err != nil {
@@ -460,6 +468,19 @@ func run(env *simrt.Env, sci interface{}) {
 				env.Fail(prop+"/outbound-lost", "after %d expired mappings a datagram from %s to the bound socket %s was received by %d sockets", 16385, is.addr, rs.addr, len(who))
 				return
 			}
+			srcX2 := ""
+			if r2 != nil && r2 != rs && src != is {
+				pl, tag := mkPayload()
+				_, _ = src.conn.WriteTo(append([]byte(nil), pl...), r2.addr)
+				settle()
+				who, sx, ok := collect(tag, pl)
+				if !ok {
+					return
+				}
+				if len(who) == 1 && who[0] == r2 {
+					srcX2 = sx
+				}
+			}
 			quiet = time.Millisecond
 			for p := 0; p < 16385; p++ {
 				pl2, _ := mkPayload()
@@ -472,6 +493,22 @@ func run(env *simrt.Env, sci interface{}) {
 			settle()
 			for _, s := range all {
 				s.read = len(s.inbox)
+			}
+			if srcX2 != "" && env.Now().Sub(v0) < L-time.Millisecond {
+				// the flow observed before the burst sends again within its lifetime: same external address
+				pl, tag := mkPayload()
+				_, _ = src.conn.WriteTo(append([]byte(nil), pl...), r2.addr)
+				quiet = time.Second
+				settle()
+				who, sx, ok := collect(tag, pl)
+				if !ok {
+					return
+				}
+				if len(who) != 1 || who[0] != r2 || sx != srcX2 {
+					env.Fail(prop+"/mapping-not-kept", "the flow %s -> %s had the external address %s; %v later (lifetime %v), after %d other flows of the same socket had become active again, its next datagram was received by %d sockets with source %q", src.addr, r2.addr, srcX2, env.Now().Sub(v0), L, 16385, len(who), sx)
+					return
+				}
+				env.Probe("old-flow-kept-across-burst")
 			}
 			if env.Now().Sub(v0) < L-time.Millisecond {
 				x, err := net.ResolveUDPAddr("udp", srcX)
@@ -557,6 +594,7 @@ func run(env *simrt.Env, sci interface{}) {
 			if is != src {
 				quiet = time.Millisecond
 				var tOldest time.Time
+				srcX3 := ""
 				for p := 0; p < 16390; p++ {
 					plz, _ := mkPayload()
 					_, _ = src.conn.WriteTo(plz, &net.UDPAddr{IP: net.ParseIP("1.2.3.100"), Port: 20000 + p})
@@ -564,6 +602,20 @@ func run(env *simrt.Env, sci interface{}) {
 						settle()
 						if p == 64 {
 							tOldest = env.Now()
+							if srcX2 != "" {
+								// the observed flow comes back after its mapping has expired (new external address)
+								pl, tag := mkPayload()
+								_, _ = src.conn.WriteTo(append([]byte(nil), pl...), r2.addr)
+								settle()
+								who, sx, ok := collect(tag, pl)
+								if !ok {
+									return
+								}
+								srcX3 = ""
+								if len(who) == 1 && who[0] == r2 {
+									srcX3 = sx
+								}
+							}
 							env.Sleep(L / 2)
 						}
 					}
@@ -571,6 +623,22 @@ func run(env *simrt.Env, sci interface{}) {
 				settle()
 				for _, s := range all {
 					s.read = len(s.inbox)
+				}
+				if srcX3 != "" && env.Now().Sub(tOldest) < L-time.Second {
+					// half a lifetime later, after thousands of other mappings were created (the port
+					// search came past every port once), it still has that address
+					pl, tag := mkPayload()
+					_, _ = src.conn.WriteTo(append([]byte(nil), pl...), r2.addr)
+					settle()
+					who, sx, ok := collect(tag, pl)
+					if !ok {
+						return
+					}
+					if len(who) != 1 || who[0] != r2 || sx != srcX3 {
+						env.Fail(prop+"/mapping-not-kept", "the flow %s -> %s came back after its mapping had expired and was given the external address %s; %v later (lifetime %v), after %d further mappings had been created, its next datagram was received by %d sockets with source %q", src.addr, r2.addr, srcX3, env.Now().Sub(tOldest), L, 16325, len(who), sx)
+						return
+					}
+					env.Probe("returning-flow-kept-across-burst")
 				}
 				if d := tOldest.Add(L + time.Millisecond).Sub(env.Now()); d > 0 && d < L/2+time.Second {
 					env.Sleep(d)
